@@ -55,9 +55,10 @@ Qed.
 
 (* ---- serialize -------------------------------------------------------------------------------------- *)
 (* entries as the text formats' parsers yield them for junk-free files: entities, standalone
-   comments, whitespace, ini section headers *)
+   comments, whitespace, ini section headers, .inc instructions *)
 Definition plain (e : centry) : Prop :=
-  c_kind e = CEntity \/ c_kind e = CComment \/ c_kind e = CWhite \/ c_kind e = CSection.
+  c_kind e = CEntity \/ c_kind e = CComment \/ c_kind e = CWhite \/ c_kind e = CSection \/
+  c_kind e = COther.
 
 Variables (vR vL : list centry).
 Hypothesis HpR : Forall plain vR.
@@ -80,9 +81,9 @@ Proof.
 Qed.
 
 Lemma plain_nojunk e : plain e -> is_junk e = false.
-Proof. unfold plain, is_junk. intros [K|[K|[K|K]]]; rewrite K; reflexivity. Qed.
+Proof. unfold plain, is_junk. intros [K|[K|[K|[K|K]]]]; rewrite K; reflexivity. Qed.
 Lemma plain_nosticky e : plain e -> is_sticky e = false.
-Proof. unfold plain, is_sticky. intros [K|[K|[K|K]]]; rewrite K; reflexivity. Qed.
+Proof. unfold plain, is_sticky. intros [K|[K|[K|[K|K]]]]; rewrite K; reflexivity. Qed.
 
 Lemma gnjR : nj R = R.
 Proof. apply nj_all. intros e He. apply plain_nojunk. apply (numbered_plain vR 0 e HpR He). Qed.
